@@ -498,6 +498,9 @@ def c14_independent(res, rng):
         "round": lambda x: anp.sum(anp.round(anp.real(first_leaf(x)))) + 0.5,
         "zeros_like": lambda x: anp.sum(anp.zeros_like(anp.real(first_leaf(x)))) + 1.0,
         "const_tuple": lambda x: (1.0, onp.array([1.0, 2.0])),
+        # the traced value only enters a primitive through an argument registered as non-differentiable
+        "where_traced_cond": lambda x: anp.where(anp.sum(anp.real(first_leaf(x))) + 10.0, onp.arange(6.0).reshape(2, 3), onp.ones((2, 3))),
+        "where_traced_cond_vec": lambda x: anp.where(anp.ravel(anp.real(first_leaf(x)))[:1] + 10.0, onp.arange(6.0).reshape(2, 3), onp.ones((2, 3))),
     }
     scalar_out = {"const_float", "const_npfloat", "other_arg", "floor", "sign", "compare", "argmax", "shape", "round", "zeros_like"}
 
